@@ -328,7 +328,7 @@ def main():
                 tech = tech + "; " + R19[pid]
                 text = text + " Round 19 (DESIGN §10.18) adds: " + R19[pid] + "."
                 ref = ref + ", §10.18"
-            text = text + " The thorough tier also replays the independently written behaviour-preserving refactorings of /verif/benign (DESIGN §10.8, §10.9, §10.11, §10.13, §10.15, §10.17) and fails if one of them is reported."
+            text = text + " The thorough tier also replays the independently written behaviour-preserving refactorings of /verif/benign (DESIGN §10.8, §10.9, §10.11, §10.13, §10.15, §10.17, §10.19) and fails if one of them is reported."
             checks.append({
                 "property_id": pid,
                 "quick_cmd": "./check %s quick" % pid,
